@@ -152,6 +152,10 @@ class Harness:
                 hooks.emit("p.seg.enter", p=pid, flavour=flavour, **h.ctx_info(flavour))
                 for _ in range(cmd.get("spin", 200)):
                     pass
+                if cmd.get("adopt"):
+                    # in the middle of the synchronous section (a read-modify-write, say) the
+                    # payload hands another payload to the runtime: adopt() does not run it here
+                    h.do_adopt(cmd["adopt"], "payload:" + pid)
                 time.sleep(cmd.get("hold", 0.0))
                 hooks.emit("p.seg.exit", p=pid, flavour=flavour)
             elif op == "adopt":
@@ -173,7 +177,17 @@ class Harness:
                 for target in cmd["targets"]:
                     h.do_adopt(target, "payload:" + pid)
             elif op == "execute":
-                h.do_execute(cmd["target"], "payload:" + pid, cmd["how"], cmd.get("slow", 0.0))
+                if cmd.get("own_loop") == "trio" and flavour == "threading":
+                    # from a worker thread (trio.to_thread) of the thread payload's private trio loop
+                    async def private_trio():
+                        await trio.to_thread.run_sync(lambda: h.do_execute(cmd["target"], "owntrio:" + pid, cmd["how"], cmd.get("slow", 0.0)))
+                    trio.run(private_trio)
+                elif cmd.get("own_loop") and flavour == "threading":
+                    async def private():
+                        await asyncio.get_running_loop().run_in_executor(None, lambda: h.do_execute(cmd["target"], "ownloop:" + pid, cmd["how"], cmd.get("slow", 0.0)))
+                    asyncio.run(private())
+                else:
+                    h.do_execute(cmd["target"], "payload:" + pid, cmd["how"], cmd.get("slow", 0.0))
             elif op == "new_service":
                 h.do_new_service(cmd["s"], "payload:" + pid)
             elif op == "end":
